@@ -90,97 +90,59 @@ Section Sem.
     | _ => false
     end.
 
-  (* native execution *)
+  Fixpoint default_from (l : list (clabel * list stmt)) : option (list (clabel * list stmt)) :=
+    match l with
+    | [] => None
+    | (LDefault, b) :: r => Some ((LDefault, b) :: r)
+    | _ :: r => default_from r
+    end.
+
+  Fixpoint pick_clause (tv : nat) (l : list (clabel * list stmt)) : option (list (clabel * list stmt)) :=
+    match l with
+    | [] => None
+    | (lab, b) :: r => if clause_matches lab tv then Some ((lab, b) :: r) else pick_clause tv r
+    end.
+
+  (* continue with [f] when the (optional) simple statement completed normally *)
+  Definition after_normal (r : option compl) (f : W -> option compl) : option compl :=
+    match r with
+    | Some (CDone GNormal w') => f w'
+    | other => other
+    end.
+
+  (* native execution; every recursive call spends one unit of fuel *)
   Fixpoint exec (n : nat) (s : stmt) (w : W) {struct n} : option compl :=
     match n with 0 => None | S n =>
-      let exec_list := fix go (l : list stmt) (w : W) : option compl :=
-        match l with
-        | [] => Some (CDone GNormal w)
-        | x :: r => match exec n x w with
-                    | Some (CDone GNormal w') => go r w'
-                    | other => other
-                    end
-        end in
-      let exec_opt := fun (o : option stmt) (w : W) (f : W -> option compl) =>
-        match o with
-        | None => f w
-        | Some x => match exec n x w with
-                    | Some (CDone GNormal w') => f w'
-                    | other => other
-                    end
-        end in
       match s with
       | SAtom a => lift (aden a (fst w)) (snd w) (fun _ w' => Some (CDone GNormal w'))
       | SYield v =>
           lift (yden v (fst w)) (snd w) (fun x w' =>
             let '(u', more) := env (snd w') x (fst w') in
             if more then Some (CDone GNormal (u', S (snd w'))) else Some (CStop (u', S (snd w'))))
-      | SBlock b => exec_list b w
+      | SBlock b => exec_list n b w
       | SIf i c t e =>
-          exec_opt i w (fun w1 =>
+          after_normal (match i with None => Some (CDone GNormal w) | Some x => exec n x w end) (fun w1 =>
             lift (cden c (fst w1)) (snd w1) (fun b w2 =>
-              if b then exec_list t w2
+              if b then exec_list n t w2
               else match e with
                    | ENone => Some (CDone GNormal w2)
-                   | EElse eb => exec_list eb w2
+                   | EElse eb => exec_list n eb w2
                    | EElif x => exec n x w2
                    end))
       | SSwitch i tag cs =>
-          exec_opt i w (fun w1 =>
-            (* run clause bodies from index j on (fallthrough chains to the next body) *)
-            let run_from := fix rf (l : list (clabel * list stmt)) (w : W) : option compl :=
-              match l with
-              | [] => Some (CDone GNormal w)
-              | (_, b) :: r => match exec_list b w with
-                               | Some (CDone GFallthrough w') => rf r w'
-                               | Some (CDone GBreak w') => Some (CDone GNormal w')
-                               | other => other
-                               end
-              end in
-            let default_from := fix df (l : list (clabel * list stmt)) : option (list (clabel * list stmt)) :=
-              match l with
-              | [] => None
-              | (LDefault, b) :: r => Some ((LDefault, b) :: r)
-              | _ :: r => df r
-              end in
+          after_normal (match i with None => Some (CDone GNormal w) | Some x => exec n x w end) (fun w1 =>
             match tag with
             | Some t =>
                 lift (tden t (fst w1)) (snd w1) (fun tv w2 =>
-                  let pick := fix pk (l : list (clabel * list stmt)) : option (list (clabel * list stmt)) :=
-                    match l with
-                    | [] => None
-                    | (lab, b) :: r => if clause_matches lab tv then Some ((lab, b) :: r) else pk r
-                    end in
-                  match pick cs with
-                  | Some l => run_from l w2
-                  | None => match default_from cs with Some l => run_from l w2 | None => Some (CDone GNormal w2) end
+                  match pick_clause tv cs with
+                  | Some l => exec_from n l w2
+                  | None => match default_from cs with Some l => exec_from n l w2 | None => Some (CDone GNormal w2) end
                   end)
-            | None =>
-                (* tag-less: case conditions are evaluated in order until one holds *)
-                (fix pk (l : list (clabel * list stmt)) (w : W) : option compl :=
-                   match l with
-                   | [] => match default_from cs with Some l => run_from l w | None => Some (CDone GNormal w) end
-                   | (LCond c, b) :: r =>
-                       lift (cden c (fst w)) (snd w) (fun bb w' => if bb then run_from ((LCond c, b) :: r) w' else pk r w')
-                   | _ :: r => pk r w
-                   end) cs w1
+            | None => exec_pick n cs cs w1
             end)
       | SFor i c p b =>
-          exec_opt i w (fun w1 =>
-            (fix loop (m : nat) (w : W) {struct m} : option compl :=
-               match m with 0 => None | S m =>
-                 let body := fun (w2 : W) =>
-                   match exec_list b w2 with
-                   | Some (CDone (GNormal | GContinue) w3) =>
-                       exec_opt p w3 (fun w4 => loop m w4)
-                   | Some (CDone GBreak w3) => Some (CDone GNormal w3)
-                   | other => other
-                   end in
-                 match c with
-                 | None => body w
-                 | Some cc => lift (cden cc (fst w)) (snd w) (fun bb w2 => if bb then body w2 else Some (CDone GNormal w2))
-                 end
-               end) n w1)
+          after_normal (match i with None => Some (CDone GNormal w) | Some x => exec n x w end) (fun w1 =>
+            exec_loop n c p b w1)
       | SBreak => Some (CDone GBreak w)
       | SContinue => Some (CDone GContinue w)
       | SReturn => Some (CDone GReturn w)
@@ -191,71 +153,110 @@ Section Sem.
                   | Stuck => Some CStuck
                   end
       end
-    end.
-
-  Definition exec_list (n : nat) (l : list stmt) (w : W) : option compl :=
-    (fix go (l : list stmt) (w : W) : option compl :=
-       match l with
-       | [] => Some (CDone GNormal w)
-       | x :: r => match exec n x w with
-                   | Some (CDone GNormal w') => go r w'
-                   | other => other
-                   end
-       end) l w.
-
-  (* running a seq value: the big-step reading of the reference interpreter *)
-  Fixpoint run (n : nat) (sv : sval) (w : W) {struct n} : option compl :=
+    end
+  with exec_list (n : nat) (l : list stmt) (w : W) {struct n} : option compl :=
     match n with 0 => None | S n =>
-      let call := fun (t : thunk) (w : W) =>
-        match t with
-        | TLit body => match exec_list n body w with
-                       | Some (CRet sv' w') => run n sv' w'
-                       | Some (CDone _ _) => Some CStuck
+      match l with
+      | [] => Some (CDone GNormal w)
+      | x :: r => after_normal (exec n x w) (fun w' => exec_list n r w')
+      end
+    end
+  (* run the clause bodies from the chosen clause on: fallthrough chains to the next body *)
+  with exec_from (n : nat) (l : list (clabel * list stmt)) (w : W) {struct n} : option compl :=
+    match n with 0 => None | S n =>
+      match l with
+      | [] => Some (CDone GNormal w)
+      | (_, b) :: r => match exec_list n b w with
+                       | Some (CDone GFallthrough w') => exec_from n r w'
+                       | Some (CDone GBreak w') => Some (CDone GNormal w')
                        | other => other
                        end
-        | TSig x => match build x w with
-                    | Ok u sv' => run n sv' (u, snd w)
-                    | Panic u pv => Some (CPanic (u, snd w) pv)
-                    | Stuck => Some CStuck
-                    end
+      end
+    end
+  (* tag-less switch: case conditions are evaluated in order until one holds *)
+  with exec_pick (n : nat) (all l : list (clabel * list stmt)) (w : W) {struct n} : option compl :=
+    match n with 0 => None | S n =>
+      match l with
+      | [] => match default_from all with Some d => exec_from n d w | None => Some (CDone GNormal w) end
+      | (LCond c, b) :: r =>
+          lift (cden c (fst w)) (snd w) (fun bb w' => if bb then exec_from n ((LCond c, b) :: r) w' else exec_pick n all r w')
+      | _ :: r => exec_pick n all r w
+      end
+    end
+  with exec_loop (n : nat) (c : option nat) (p : option stmt) (b : list stmt) (w : W) {struct n} : option compl :=
+    match n with 0 => None | S n =>
+      let body := fun (w2 : W) =>
+        match exec_list n b w2 with
+        | Some (CDone (GNormal | GContinue) w3) =>
+            after_normal (match p with None => Some (CDone GNormal w3) | Some x => exec n x w3 end) (fun w4 => exec_loop n c p b w4)
+        | Some (CDone GBreak w3) => Some (CDone GNormal w3)
+        | other => other
         end in
+      match c with
+      | None => body w
+      | Some cc => lift (cden cc (fst w)) (snd w) (fun bb w2 => if bb then body w2 else Some (CDone GNormal w2))
+      end
+    end.
+
+  (* running a seq value: the big-step reading of the reference interpreter.
+     [strict] = true is Go: a function literal body that completes without
+     `return` does not exist (go build rejects it), modelled as CStuck.
+     [strict] = false is the generalised reading used between pass2 and pass3 of
+     the rewriter: a native break / continue (or falling off the end) that leaves a
+     callback body means the signal of the same name. *)
+  Variable strict : bool.
+
+  Fixpoint run (n : nat) (sv : sval) (w : W) {struct n} : option compl :=
+    match n with 0 => None | S n =>
       match sv with
       | VBind v t =>
           let '(u', more) := env (snd w) v (fst w) in
-          if more then call t (u', S (snd w)) else Some (CStop (u', S (snd w)))
-      | VDelay t => call t w
-      | VCombine a b =>
-          match run n a w with
-          | Some (CDone GNormal w') => run n b w'
-          | other => other
-          end
-      | VFor c p body =>
-          (fix loop (m : nat) (skipPost : bool) (w : W) {struct m} : option compl :=
-             match m with 0 => None | S m =>
-               let after_post := fun (w1 : W) =>
-                 let iter := fun (w2 : W) =>
-                   match run n body w2 with
-                   | Some (CDone (GNormal | GContinue) w3) => loop m false w3
-                   | Some (CDone GBreak w3) => Some (CDone GNormal w3)
-                   | other => other
-                   end in
-                 match c with
-                 | None => iter w1
-                 | Some (CExp cc) | Some (CFun cc) =>
-                     lift (cden cc (fst w1)) (snd w1) (fun bb w2 => if bb then iter w2 else Some (CDone GNormal w2))
-                 end in
-               if skipPost then after_post w
-               else match p with
-                    | None => after_post w
-                    | Some ps => match exec n ps w with
-                                 | Some (CDone GNormal w1) => after_post w1
-                                 | Some (CDone _ _) | Some (CRet _ _) => Some CStuck
-                                 | other => other
-                                 end
-                    end
-             end) n true w
+          if more then call n t (u', S (snd w)) else Some (CStop (u', S (snd w)))
+      | VDelay t => call n t w
+      | VCombine a b => after_normal (run n a w) (fun w' => run n b w')
+      | VFor c p body => run_loop n c p body true w
       | VSig g => Some (CDone g w)
       end
+    end
+  with call (n : nat) (t : thunk) (w : W) {struct n} : option compl :=
+    match n with 0 => None | S n =>
+      match t with
+      | TLit body => match exec_list n body w with
+                     | Some (CRet sv' w') => run n sv' w'
+                     | Some (CDone g w') =>
+                         if strict then Some CStuck else Some (CDone g w')
+                     | other => other
+                     end
+      | TSig x => match build x w with
+                  | Ok u sv' => run n sv' (u, snd w)
+                  | Panic u pv => Some (CPanic (u, snd w) pv)
+                  | Stuck => Some CStuck
+                  end
+      end
+    end
+  with run_loop (n : nat) (c : option cnd) (p : option stmt) (body : sval) (skipPost : bool) (w : W) {struct n} : option compl :=
+    match n with 0 => None | S n =>
+      let after_post := fun (w1 : W) =>
+        let iter := fun (w2 : W) =>
+          match run n body w2 with
+          | Some (CDone (GNormal | GContinue) w3) => run_loop n c p body false w3
+          | Some (CDone GBreak w3) => Some (CDone GNormal w3)
+          | other => other
+          end in
+        match c with
+        | None => iter w1
+        | Some (CExp cc) | Some (CFun cc) =>
+            lift (cden cc (fst w1)) (snd w1) (fun bb w2 => if bb then iter w2 else Some (CDone GNormal w2))
+        end in
+      if skipPost then after_post w
+      else match p with
+           | None => after_post w
+           | Some ps => match exec n ps w with
+                        | Some (CDone GNormal w1) => after_post w1
+                        | Some (CDone _ _) | Some (CRet _ _) => Some CStuck
+                        | other => other
+                        end
+           end
     end.
 
   (* what the consumer of the whole generator observes *)
